@@ -26,6 +26,7 @@ CONSTANTS
   TbVals <- Tb_vals
   TickVals = {}
   Targets = {"A"}
+  SubTargets = {"A"}
   AutoVals = {TRUE}
   SubOneshot = {FALSE}
   Senders = {"A"}
